@@ -4,6 +4,7 @@ CFG = {
         J("scaled", "c05"),
         J("scaled", "c05-blocks", imports="Base Stream Inst Run RunFsComp RunFsStack", shard=8),
         J("scaled", "c05-ids"),
+        J("scaled", "c02-exotic", imports="Base Stream Inst Run"),
         J("scaled", "witness --only C05"),
     ],
     "run_modules": ["RunFsComp", "RunFsStack"],
@@ -44,3 +45,8 @@ CFG = {
 # work package fscomp: the fail-safe decompression reader (appended to the texts above)
 CFG["rule"] += "; " + CFG.pop("rule_fscomp")
 CFG["explanation"] += " || " + CFG.pop("explanation_fscomp")
+
+# round-4 seeds C05-m7 / C05-m8 / C14-m8
+CFG["rule"] += ("; c02-exotic (shared with C02): archives written by the INDEPENDENT encoder (file ids from 10, empty FileContent blocks - also as the very first content "
+                "block -, a file named \"\", interleaved pieces), every cut, model-compared: the intact archive is recovered completely, no file shrinks when one more byte is "
+                "given, and a repair that does not return within 10 s is a failure; c05: intact ENCRYPTED archives also from sources that report one interruption")
